@@ -115,7 +115,7 @@ fn forward(m: &RLib, ctx: &mut Ctx) -> Result<(), String> {
             let mut gi = vec![];
             for i in &layout.insts {
                 let a = i.angle.unwrap_or(0.0);
-                gi.push((i.inst_name.clone(), i.cell.read().map_err(|_| "lock")?.name.clone(), (i.loc.x as i64, i.loc.y as i64), i.reflect_vert, a as i64));
+                gi.push((i.inst_name.clone(), i.cell.read().map_err(|_| "lock")?.name.clone(), (i.loc.x as i64, i.loc.y as i64), i.reflect_vert, (a as i64).rem_euclid(360)));
                 if a != a.round() {
                     return Err(format!("instance angle came back as {}", a));
                 }
